@@ -14,8 +14,9 @@ GROGU_ASSUME = [
     "before delivery",
     "fakes at the interface boundary: FeedQuerier = the real feeds query server on the current state of the in-process "
     "chain (always the latest state, no lagging node); price service = the script's quotes; RPC client / TxQuerier / "
-    "AuthQuerier scripted (CheckTx result, transport error, tx found with the chain's code, time-out); gas simulation "
-    "answered with a constant; out-of-gas retries not exercised",
+    "AuthQuerier scripted (CheckTx result incl. out of gas, transport error, tx found with the chain's code, time-out; "
+    "failures BEFORE the broadcast: feeder keys deleted from / restored to the in-memory keyring, account query down, "
+    "gas simulation down); gas simulation otherwise answered with a constant; out-of-gas as DELIVERY result not exercised",
     "chain side at the L1 handler layer: the inner MsgSubmitSignalPrices of the broadcast MsgExec is delivered through "
     "app.MsgServiceRouter(); authz grant / feeder signature / ante handlers are not exercised; feed list and params "
     "installed with keeper setters (SetCurrentFeeds, SetParams); the validator is bonded and activated by MsgActivate",
@@ -40,7 +41,8 @@ PROPS = {
              "random scripts, alternately `live` (within the timing assumptions: polling period 1-4 s, latency <= L, "
              "block lag <= D, quotes biased to the deviation threshold +-1, status flips, rare feed-list changes, "
              "2.5 intervals long) and `faults` (arbitrary interleaving with transport errors, CheckTx rejections, "
-             "time-outs, retries, missing quotes, feed changes in flight, clock jumps); a script is non-trivial if "
+             "time-outs, retries, feeder key deleted / account query or gas simulation down and recovering, missing quotes, "
+             "feed changes in flight, clock jumps); a script is non-trivial if "
              "the daemon made at least one submission; distinct = SHA-256 of the abstract script",
         assumptions=GROGU_ASSUME,
     ),
